@@ -655,14 +655,15 @@ package tds
 //@ typeinv Conn { [packet-size] 8 < this.packetSize && this.packetSize <= 65535 }
 //@ typeinv Channel { [wired] this.tdsConn != nil && this.queueTx != nil && this.queueRx != nil && this.queueTx != this.queueRx }
 //@ typeinv Channel { [tx-queue] this.queueTx.$writable && chwf(this.queueTx) }
+//@ typeinv Channel { [eom-ghost] this.eomPending == this.$open }
 //@ typeinv Channel { [channel-id] 0 <= this.channelId && this.channelId <= 65535 }
 //@ func (*Conn).PacketSize returns (r) inline
 //@ func (*Conn).PacketBodySize returns (r) inline
 //@ func (*Channel).sendPacket returns (err)
 //@   requires [packet] packet != nil
 //@   requires [wire-length] packet.Header.Length == 8 + len(packet.Data)
-//@   modifies packet.Header, tdsChan.curPacketNr, tdsChan.$open, tdsChan.tdsConn.conn.$wire, tdsChan.tdsConn.conn.$wlen
-//@   ghost-update at after (tds.Packet).WriteTo#1: tdsChan.$open := (packet.Header.Status % 2) == 0
+//@   modifies packet.Header, tdsChan.curPacketNr, tdsChan.eomPending, tdsChan.$open, tdsChan.tdsConn.conn.$wire, tdsChan.tdsConn.conn.$wlen
+//@   ghost-update at after (tds.Packet).WriteTo#1: tdsChan.$open := ($res1 == nil && $res0 == packet.Header.Length) ? (packet.Header.Status % 2 == 0) : tdsChan.$open
 //@   ensures [type] packet.Header.MsgType == tdsChan.CurrentHeaderType
 //@   ensures [channel] tdsChan.channelId > 0 ==> packet.Header.Channel == tdsChan.channelId
 //@   ensures [channel0] tdsChan.channelId == 0 ==> packet.Header.Channel == old(packet.Header.Channel)
@@ -672,9 +673,59 @@ package tds
 //@   ensures [written] err == nil ==> tdsChan.tdsConn.conn.$wlen == old(tdsChan.tdsConn.conn.$wlen) + packet.Header.Length
 //@   ensures [header] err == nil ==> hdrat(tdsChan.tdsConn.conn, old(tdsChan.tdsConn.conn.$wlen), packet.Header.MsgType, packet.Header.Status, packet.Header.Length, packet.Header.Channel, packet.Header.PacketNr, packet.Header.Window)
 //@   ensures [body] err == nil ==> (forall j int :: 8 <= j && j < packet.Header.Length ==> tdsChan.tdsConn.conn.$wire[old(tdsChan.tdsConn.conn.$wlen) + j] == packet.Data[j - 8])
+//@   ensures [wire-grows] old(tdsChan.tdsConn.conn.$wlen) <= tdsChan.tdsConn.conn.$wlen
 //@   ensures [prefix-kept] forall k int :: 0 <= k && k < old(tdsChan.tdsConn.conn.$wlen) ==> tdsChan.tdsConn.conn.$wire[k] == old(tdsChan.tdsConn.conn.$wire[k])
 //@ func (*Channel).sendPackets returns (err)
 //@   requires [ctx] nonnil(ctx)
-//@   modifies all Packet.Header, all Packet.Data, tdsChan.curPacketNr, tdsChan.$open, tdsChan.tdsConn.conn.$wire, tdsChan.tdsConn.conn.$wlen, tdsChan.queueTx.queue, tdsChan.queueTx.indexPacket, tdsChan.queueTx.indexData
+//@   modifies all Packet.Header, all Packet.Data, tdsChan.curPacketNr, tdsChan.eomPending, tdsChan.$open, tdsChan.tdsConn.conn.$wire, tdsChan.tdsConn.conn.$wlen, tdsChan.queueTx.queue, tdsChan.queueTx.indexPacket, tdsChan.queueTx.indexData
 //@   ensures [eom-last] !onlyFull && err == nil ==> !tdsChan.$open
+//@   loop 0:
+//@     invariant [coupled] tdsChan.eomPending == tdsChan.$open
+//@     invariant [wire-prefix] old(tdsChan.tdsConn.conn.$wlen) <= tdsChan.tdsConn.conn.$wlen && (forall k int :: 0 <= k && k < old(tdsChan.tdsConn.conn.$wlen) ==> tdsChan.tdsConn.conn.$wire[k] == old(tdsChan.tdsConn.conn.$wire[k]))
+//@   ensures [wire-grows] old(tdsChan.tdsConn.conn.$wlen) <= tdsChan.tdsConn.conn.$wlen
 //@   ensures [prefix-kept] forall k int :: 0 <= k && k < old(tdsChan.tdsConn.conn.$wlen) ==> tdsChan.tdsConn.conn.$wire[k] == old(tdsChan.tdsConn.conn.$wire[k])
+
+//@ # ---------------------------------------------------------------------
+//@ # Writers (C01 / C06): a package, format or data field only appends to the output
+//@ # stream of the channel it is given; the counted writers report exactly the number of
+//@ # bytes they appended.
+//@ interface Package.WriteTo params (ch) returns (err)
+//@   requires [writable] ch.$writable
+//@   requires [chwf] chwf(ch)
+//@   modifies ch.*, ch.$w, ch.$out, all Packet.Data, all Packet.Header, all elems *tds.Packet, all elems byte, all Packet.$pos
+//@   ensures [append-only] forall k int :: 0 <= k && k < old(ch.$w) ==> ch.$out[k] == old(ch.$out[k])
+//@   ensures [grows] err == nil ==> old(ch.$w) <= ch.$w
+//@   ensures [chwf] chwf(ch)
+//@ interface FieldFmt.WriteTo params (ch) returns (n, err)
+//@   requires [writable] ch.$writable
+//@   requires [chwf] chwf(ch)
+//@   modifies ch.*, ch.$w, ch.$out, all Packet.Data, all Packet.Header, all elems *tds.Packet, all elems byte, all Packet.$pos
+//@   ensures [append-only] forall k int :: 0 <= k && k < old(ch.$w) ==> ch.$out[k] == old(ch.$out[k])
+//@   ensures [grows] err == nil ==> old(ch.$w) <= ch.$w
+//@   ensures [chwf] chwf(ch)
+//@ interface FieldData.WriteTo params (ch) returns (n, err)
+//@   requires [writable] ch.$writable
+//@   requires [chwf] chwf(ch)
+//@   modifies ch.*, ch.$w, ch.$out, all Packet.Data, all Packet.Header, all elems *tds.Packet, all elems byte, all Packet.$pos
+//@   ensures [append-only] forall k int :: 0 <= k && k < old(ch.$w) ==> ch.$out[k] == old(ch.$out[k])
+//@   ensures [grows] err == nil ==> old(ch.$w) <= ch.$w
+//@   ensures [chwf] chwf(ch)
+//@ func (EnvChangePackageField).WriteTo like FieldFmt.WriteTo
+//@ # Channel entry points of the sender (C01)
+//@ func (*Channel).QueuePackage returns (err)
+//@   requires [ctx] nonnil(ctx)
+//@   requires [pkg] nonnil(pkg)
+//@   ensures [queued-append-only] forall k int :: 0 <= k && k < old(tdsChan.queueTx.$w) ==> tdsChan.queueTx.$out[k] == old(tdsChan.queueTx.$out[k])
+//@   ensures [wire-grows] old(tdsChan.tdsConn.conn.$wlen) <= tdsChan.tdsConn.conn.$wlen
+//@   ensures [wire-prefix-kept] forall k int :: 0 <= k && k < old(tdsChan.tdsConn.conn.$wlen) ==> tdsChan.tdsConn.conn.$wire[k] == old(tdsChan.tdsConn.conn.$wire[k])
+//@ func (*Channel).SendRemainingPackets returns (err)
+//@   requires [ctx] nonnil(ctx)
+//@   ensures [eom-last] err == nil ==> !tdsChan.$open
+//@   ensures [wire-grows] old(tdsChan.tdsConn.conn.$wlen) <= tdsChan.tdsConn.conn.$wlen
+//@   ensures [wire-prefix-kept] forall k int :: 0 <= k && k < old(tdsChan.tdsConn.conn.$wlen) ==> tdsChan.tdsConn.conn.$wire[k] == old(tdsChan.tdsConn.conn.$wire[k])
+//@ func (*Channel).SendPackage returns (err)
+//@   requires [ctx] nonnil(ctx)
+//@   requires [pkg] nonnil(pkg)
+//@   ensures [eom-last] err == nil ==> !tdsChan.$open
+//@   ensures [wire-grows] old(tdsChan.tdsConn.conn.$wlen) <= tdsChan.tdsConn.conn.$wlen
+//@   ensures [wire-prefix-kept] forall k int :: 0 <= k && k < old(tdsChan.tdsConn.conn.$wlen) ==> tdsChan.tdsConn.conn.$wire[k] == old(tdsChan.tdsConn.conn.$wire[k])
